@@ -21,4 +21,13 @@ def run(tier, seed):
     from props import common_constraints as cm
     cm.fill_trust(ctx)
     cm.bounded_constraints(ctx, props=('C01',))
+    # the file / dict route re-reads date bounds through get_date: it must invert the text written for them
+    import time
+    from bounded import serial_bounded as sb
+    t = time.time()
+    n, bad = sb.date_text_roundtrip()
+    ctx.add_exhaustive('base.get_date.inverts-the-written-date-text', n, bad[:50], time.time() - t, True,
+                       sample={'domain': 'every microsecond value 0..999999 x {str(d), d.isoformat()}; every (month, day) of a leap '
+                                         'year, every hour, minute, second; years 1..9999 at 9 values; date-only texts',
+                               'claim': 'get_date(text written for a date bound) == that datetime'})
     return finish(ctx, 'proof', replayers=cm.REPLAYERS)
